@@ -105,7 +105,7 @@ def gen(run):
     for vt in (0, 1, 3):
         t = F.VEF_TYPES[vt]
         pics = pictures(t["rec"] * 400, t["rowbytes"])
-        for nm in (["boundaries"] if quick else ["boundaries", "spikes", "literals", "constant"]):
+        for nm in (["boundaries", "literals"] if quick else ["boundaries", "spikes", "literals", "constant"]):
             body = pics[nm]
             exp = ("png", vt, pal, body)
             cases.append({"tool": "vef", "data": F.vef_raw_file(pal, body, vt), "expect": exp, "features": ["vef", "raw-form"], "label": f"vef raw {nm} type={vt}", "choices": []})
